@@ -1,9 +1,11 @@
 //! C18 correspondence harness: calls the live CpuContext / MinidumpContext methods.
-//!   <variant> <name> <validity> <value>
+//!   <variant> <name> <validity> <value> [<context_flags>]
 //! variant: MinidumpRawContext variant (X86 Ppc Ppc64 Amd64 Sparc Arm Arm64 OldArm64 Mips)
 //! name: register name, `-` for the empty string
 //! validity: `A` (All) or `S:<n1>,<n2>,...` (Some(set); `S:` is the empty set; `-` = empty name)
 //! value: decimal, below 2^width
+//! context_flags: decimal; written into the context's `context_flags` field (truncated to its width)
+//!   before anything else happens (absent = the pattern value)
 //!
 //! The context starts from a byte pattern read through the struct's own `Pread` impl (every
 //! field holds a distinct value with top byte 0x5A, no field is named here); then
@@ -174,6 +176,7 @@ fn run(line: &str) -> String {
     let name = name_of(t.str());
     let vspec = t.str();
     let value = t.u64();
+    let flags: Option<u64> = t.opt().map(|f| f.parse().expect("flags"));
     let mut members: Vec<String> = vec![];
     let valid = if vspec == "A" {
         MinidumpContextValidity::All
@@ -192,7 +195,10 @@ fn run(line: &str) -> String {
     let bytes = pattern();
     macro_rules! go {
         ($ty:ty, $wrap:path) => {{
-            let base: $ty = bytes.pread_with(0, scroll::LE).expect("context from pattern bytes");
+            let mut base: $ty = bytes.pread_with(0, scroll::LE).expect("context from pattern bytes");
+            if let Some(f) = flags {
+                base.context_flags = f as _;
+            }
             run_ctx::<$ty>(base, $wrap, &name, valid, &members, value)
         }};
     }
